@@ -43,6 +43,9 @@ impl NotificationHandler<DidCloseTextDocument> for DidCloseTextDocumentHandler {
             .lock()
             .unwrap()
             .remove(&params.text_document.uri.to_file_path().unwrap());
+        // From now on the file is read from disk again (if it still exists), so the analysis has to be redone
+        ctx.perform_codegen();
+        publish_diagnostics(ctx)?;
         Ok(())
     }
 }
